@@ -3,6 +3,7 @@ package main
 import (
 	"bytes"
 	"fmt"
+	"math"
 	"reflect"
 	"sort"
 	"strings"
@@ -30,7 +31,7 @@ func init() {
 		Rule: "case = (target: GenericBuffer / Buffer / RowBuffer / SortingWriter with sort-run sizes {1,2,7,100} and optional duplicate dropping; 1-2 sorting columns over required/optional int64, strings, floats, booleans with every direction x null placement; " +
 			"rows with nulls and duplicate keys; write batchings producing null/non-null runs around 8 and 64; histories write-sort-read-write-sort-Reset-reuse). Oracle: output ids are a permutation of the input ids, every row is intact across all columns, " +
 			"adjacent rows are ordered by an independent comparator (spec orders, direction, null placement as declared) AND by Schema.Comparator, file sorting metadata equals the configuration, dedup leaves one row per key. Distinct = descriptor hash",
-		Assumptions: []string{"sort keys never hold NaN (no total order defined)", "ties may come out in any order"},
+		Assumptions: []string{"NaN sort keys are only checked for completeness (no row lost, one row per key with duplicate dropping, NaN being one key): no order is demanded of them", "ties may come out in any order"},
 		Run:         runC10,
 	})
 }
@@ -255,8 +256,112 @@ func c10PickKeys(r *gen.Rand) []sortKey {
 	return keys
 }
 
+// c10NaNKeys: a float sort key that holds NaN. No order is demanded (NaN has none that every sorter agrees on), but no
+// row may be lost: without duplicate dropping the output is a permutation of the input; with it, one row per distinct
+// key remains, where NaN is a key of its own.
+func c10NaNKeys(c *Ctx, r *gen.Rand) {
+	n := gen.Pick(r, []int{4, 30, 300})
+	dedup := r.Bool()
+	rows := make([]c10Row, n)
+	distinct := map[uint64]bool{}
+	hasNaN := false
+	for i := range rows {
+		f := float64(r.Intn(12)) / 2
+		if r.P(25) {
+			f = math.NaN()
+		}
+		rows[i] = c10Row{ID: int64(i), F: f, S: "s", V: "v"}
+	}
+	if r.Bool() {
+		rows[0].F = math.NaN() // NaN first: every later row is compared with it
+	}
+	for i := range rows {
+		if rows[i].F != rows[i].F {
+			hasNaN = true
+		} else {
+			distinct[math.Float64bits(rows[i].F)] = true
+		}
+	}
+	c.D("nan_keys", true)
+	c.D("rows", n)
+	c.D("dedup", dedup)
+	k := map[string]any{"target": "SortingWriter", "nan_keys": true, "dedup": dedup}
+	sopts := []parquet.SortingOption{parquet.SortingColumns(gen.Pick(r, []parquet.SortingColumn{parquet.Ascending("f"), parquet.Descending("f")}))}
+	if dedup {
+		sopts = append(sopts, parquet.DropDuplicatedRows(true))
+	}
+	var buf bytes.Buffer
+	var out []c10Row
+	var err error
+	if c.guard("c10.panic", k, func() {
+		w := parquet.NewSortingWriter[c10Row](&buf, int64(gen.Pick(r, []int{1, 7, 100})), parquet.SortingWriterConfig(sopts...))
+		if _, err = w.Write(rows); err != nil {
+			return
+		}
+		if err = w.Close(); err != nil {
+			return
+		}
+		out, err = parquet.Read[c10Row](bytes.NewReader(buf.Bytes()), int64(buf.Len()))
+	}) {
+		return
+	}
+	if err != nil {
+		c.Fail("c10.error", k, "sorting writer with NaN keys: %v", err)
+		return
+	}
+	want := n
+	if dedup {
+		want = len(distinct)
+		if hasNaN {
+			want++
+		}
+	}
+	seenID := map[int64]bool{}
+	gotKeys := map[uint64]int{}
+	nans := 0
+	for i := range out {
+		if seenID[out[i].ID] {
+			c.Fail("c10.duplicated_rows", k, "row id %d occurs twice in the output", out[i].ID)
+			return
+		}
+		seenID[out[i].ID] = true
+		if out[i].F != out[i].F {
+			nans++
+		} else {
+			gotKeys[math.Float64bits(out[i].F)]++
+		}
+	}
+	if len(out) != want {
+		c.Fail("c10.lost_rows", k, "float sort key with NaN values (dedup=%v): %d rows written with %d distinct non-NaN keys (NaN present: %v), %d rows in the output, expected %d", dedup, n, len(distinct), hasNaN, len(out), want)
+		return
+	}
+	for b := range distinct {
+		if gotKeys[b] == 0 || (dedup && gotKeys[b] != 1) {
+			desc := ""
+			for i := range out {
+				if i < 40 {
+					desc += fmt.Sprintf(" %d:%v", out[i].ID, out[i].F)
+				}
+			}
+			in := ""
+			for i := range rows {
+				if i < 40 {
+					in += fmt.Sprintf(" %d:%v", rows[i].ID, rows[i].F)
+				}
+			}
+			c.Fail("c10.lost_rows", k, "key %v occurs %d times in the output (dedup=%v); input (id:f)%s; output%s", math.Float64frombits(b), gotKeys[b], dedup, in, desc)
+			return
+		}
+	}
+	c.Obs("nan_key_outputs_checked", 1)
+}
+
 func runC10(c *Ctx) {
 	r := c.R
+	if c.Case%9 == 4 {
+		c10NaNKeys(c, r)
+		return
+	}
 	te := typeByName("c10row")
 	schema := te.ops.Schema()
 	keys := c10PickKeys(r)
